@@ -7,7 +7,7 @@
    `_partial` forms under that guard, importer_swallow_refuted is the refutation without it;
    `sizes_by_cid` = content addressing (equal CIDs, equal sizes). Traces are chronological. *)
 From V Require Import Base.Common Model.C13_Adder Model.C13_Check Model.C13_Spec Proofs.C13_Theorems Proofs.C13_Monitor.
-From V Require Import Model.C13_Importer Model.C13_ImporterSpec Model.C13_ShapeCheck Proofs.C13_Importer Proofs.C13_ShapeMonitor Proofs.C13_ImporterLink Proofs.C13_ImporterThm.
+From V Require Import Model.C13_Importer Model.C13_ImporterSpec Model.C13_ShapeCheck Proofs.C13_Importer Proofs.C13_Trickle Proofs.C13_ShapeMonitor Proofs.C13_ImporterLink Proofs.C13_ImporterThm.
 Open Scope N_scope.
 
 (* BlockAdder.Add fails exactly when every destination errored; otherwise the destinations that did not
@@ -303,13 +303,23 @@ Proof. exact (balanced_shape_l ml chunks). Qed.
 Print Assumptions balanced_leaves_in_order_and_fanout.
 
 (* trickle: the leaves are the chunks in order (the empty file is an internal node without links); below the root no internal
-   node is empty and every link records the bytes below it. (The layer structure - at most ml leaves, then groups of at most 4
-   sub-trees of growing depth - is compared exactly with the implementation and monitored, code 32, not proved.) *)
+   node is empty and every link records the bytes below it *)
 Theorem trickle_leaves_in_order ml chunks : 1 <= ml ->
   let t := layout_tree (trickle_layout ml chunks) in
   leaves t = chunks /\ (exists ch, t = Node ch /\ (chunks <> [] -> ch <> [])) /\ (forall n, In n (below t) -> tnode_ok n).
 Proof. exact (trickle_shape_l ml chunks). Qed.
 Print Assumptions trickle_leaves_in_order.
+
+(* trickle, the layer structure (tshape): every node has at most ml leaves first, sub-trees only after a full leaf layer, and the i-th
+   sub-tree was made with maxDepth i/4 + 1 (four sub-trees per depth, depth 1 first), recursively; hence the fan-out of a node made
+   with maxDepth m is at most ml + 4 (m - 1) *)
+Theorem trickle_layers ml chunks : 1 <= ml -> tshape (S (length chunks)) ml None (layout_tree (trickle_layout ml chunks)).
+Proof. exact (trickle_layout_shape ml chunks). Qed.
+Print Assumptions trickle_layers.
+
+Theorem trickle_fanout fuel ml m ch : tshape fuel ml (Some m) (Node ch) -> N.of_nat (length ch) <= ml + 4 * N.of_nat (m - 1).
+Proof. exact (tshape_fanout fuel ml m ch). Qed.
+Print Assumptions trickle_fanout.
 
 (* both layouts: every link of every node records the number of file bytes below it, the root records the file size *)
 Theorem importer_recorded_sizes trickle ml k bs : 0 < k -> min_links trickle <= ml ->
@@ -402,9 +412,15 @@ Print Assumptions balanced_passes_monitors.
 
 Theorem trickle_passes_monitors ml chunks : 1 <= ml ->
   let t := layout_tree (trickle_layout ml chunks) in
+  trickle_okb (S (length chunks)) ml None t = true /\
   sizes_okb t = true /\ (chunks <> [] -> forallb (fun n => match n with Node [] => false | _ => true end) (postorder t) = true).
-Proof. exact (trickle_passes ml chunks). Qed.
+Proof. exact (fun H => conj (trickle_passes_shape ml chunks H) (trickle_passes ml chunks H)). Qed.
 Print Assumptions trickle_passes_monitors.
+
+(* the trickle monitor (code 32) decides the layer structure *)
+Theorem trickle_monitor_sound ml fuel md t : trickle_okb fuel ml md t = true <-> tshape fuel ml md t.
+Proof. exact (trickle_okb_iff ml fuel md t). Qed.
+Print Assumptions trickle_monitor_sound.
 
 (* non-vacuity: an 11-byte file, chunks of 2 bytes, 2 links per block: the balanced DAG of depth 3 (12 blocks); a collision-free
    CID function on it; an unsharded add to peers 1 and 2 where peer 2 drops out at the third block succeeds, pins the root, and
